@@ -514,3 +514,32 @@ Example C06_example_clause_failure :
   /\ answer_ok demo_ip demo_cfg (ApiForHost (lit "[::1]:443")) [] (lit "::1") (Issued bad) 5000 = false
   /\ answer_ok demo_ip demo_cfg (ApiForHost (lit "[::1]:443")) [] (lit "::1") (Issued good) 5000 = true.
 Proof. vm_compute. repeat split; reflexivity. Qed.
+
+(* Config OPTIONS that must not change the cache-reuse rule: SkipTLSVerify and
+   SetH2Config.  Every certificate decision is the same function of (CA, key,
+   organization, validity) whatever they are; so all theorems above — in
+   particular C06_hit_only_if_still_valid and C06_expired_reissued — hold
+   verbatim with SkipTLSVerify(true). *)
+Theorem C06_options_do_not_enter_the_decision : forall parse_ip cfg cfg',
+  cfg_ca cfg = cfg_ca cfg' /\ cfg_key cfg = cfg_key cfg' /\ cfg_org cfg = cfg_org cfg'
+  /\ cfg_validity cfg = cfg_validity cfg' ->
+  (forall c n t, x509_verify parse_ip cfg c n t = x509_verify parse_ip cfg' c n t)
+  /\ (forall n h t1 t2, issue parse_ip cfg n h t1 t2 = issue parse_ip cfg' n h t1 t2)
+  /\ (forall st a sni t t1 t2,
+        get_cert parse_ip cfg st a sni t t1 t2 = get_cert parse_ip cfg' st a sni t t1 t2)
+  /\ (forall s l, step parse_ip cfg s l = step parse_ip cfg' s l)
+  /\ (forall a sni vname r tv,
+        answer_ok parse_ip cfg a sni vname r tv = answer_ok parse_ip cfg' a sni vname r tv).
+Proof. exact options_do_not_enter_the_decision. Qed.
+Print Assumptions C06_options_do_not_enter_the_decision.
+
+(* with SkipTLSVerify(true) and an H2 config: the expired entry is still replaced *)
+Example C06_example_expiry_with_skip_verify :
+  let cfg := mkConfig 1 1 (lit "Martian Proxy") 2000 true true in
+  exists c0 c1,
+  fst (run demo_ip cfg init_state
+         [ mkReq ApiTLS (lit "a.test") 5400 5400 5400;
+           mkReq ApiTLS (lit "a.test") 6900 6900 6900;
+           mkReq ApiTLS (lit "a.test") 7001 7001 7001 ])
+  = [Issued c0; Hit c0; Issued c1] /\ c_na c0 = 7000%Z /\ c_serial c1 = 1.
+Proof. eexists. eexists. vm_compute. repeat split; reflexivity. Qed.
